@@ -27,7 +27,8 @@ for patch in patches:
     name = "/".join(patch.split("/")[-4:-1]) if "/out/" in patch else patch.split("/")[-2]
     print(name, "SILENT" if not fired else "ALARM", flush=True)
     for f in fired:
-        print("    ", f, flush=True)
+        # one short line per firing check: the first two rule instances only (full output: run ./check on the patched tree)
+        print("     %s %s %s" % (f[0], [k[:110] for k in f[1][:2]], f[2]), flush=True)
     bad += bool(fired)
 subprocess.run(["git", "-C", W, "checkout", "-q", "--", "."])
 print("patches raising an alarm:", bad)
